@@ -1,9 +1,7 @@
 #!/bin/sh
-# development helper: run a check against another checkout of the repository (a scratch worktree)
+# development helper: run a check against another checkout of the repository (a scratch worktree).
 # usage: tools/check_in.sh <repo-dir> <ID> [check args...]
+# Every build product of such a run lives under build/alt/<hash> (tools/vlib.py), so it can run next to checks of /repo.
 V="$(cd "$(dirname "$0")/.." && pwd)"; R="$1"; shift
 cd "$V"
-sed -i "s#path = \"/repo\"#path = \"$R\"#" harness/Cargo.toml
-VERIF_REPO="$R" ./check "$@"; rc=$?
-sed -i "s#path = \"$R\"#path = \"/repo\"#" harness/Cargo.toml
-exit $rc
+VERIF_REPO="$R" ./check "$@"
